@@ -1344,11 +1344,15 @@ class ProcessPoolExecutor(Executor):
                 _threads_wakeups.pop(executor_manager_thread, None)
 
         # To reduce the risk of opening too many files, remove references to
-        # objects that use file descriptors.
-        self._executor_manager_thread = None
-        self._executor_manager_thread_wakeup = None
-        self._call_queue = None
-        self._result_queue = None
-        self._processes_management_lock = None
+        # objects that use file descriptors. When the executor manager thread
+        # was not waited for, it may still need them to re-spawn workers for
+        # the pending work items (e.g. after a worker timeout): keep them until
+        # the executor itself is released.
+        if wait or executor_manager_thread is None:
+            self._executor_manager_thread = None
+            self._executor_manager_thread_wakeup = None
+            self._call_queue = None
+            self._result_queue = None
+            self._processes_management_lock = None
 
     shutdown.__doc__ = Executor.shutdown.__doc__
